@@ -6,7 +6,6 @@ import (
 	"fmt"
 	"os"
 	"path/filepath"
-	"regexp"
 	"sort"
 	"strings"
 	"sync"
@@ -408,8 +407,6 @@ func CliReplayFile(path string) error {
 // run the CLI in place twice with the first output left where it is, then once
 // more with -rm: all three files must be byte-identical (moq's own output,
 // import aliases included, is a fixed point of moq).
-var notATypeRe = regexp.MustCompile(`(\w+)\.\w+ is not a type`)
-
 func fixedPointSweep(s *Scratch, runner *clisim.Runner, seed uint64, npkgs int, known []KnownFinding) (lines []string, runs int, samples []string, err error) {
 	seenSig := map[string]bool{}
 	spec := corpus.Spec{Seed: seed, NPkgs: npkgs, ConfigsPer: 2}
@@ -483,11 +480,10 @@ func fixedPointSweep(s *Scratch, runner *clisim.Runner, seed uint64, npkgs int, 
 					msg, berr := Run(dir, MoqEnv(), "go", "build", ".")
 					os.Remove(out)
 					if berr != nil {
-						sig = "not-a-fixed-point@own-output-does-not-compile(other)"
+						// moq's first output is not valid Go (name allocation, C12):
+						// one class, the compile error is reported with it
+						sig = "not-a-fixed-point@own-output-does-not-compile"
 						why = firstLines(string(msg), 3)
-						if m := notATypeRe.FindStringSubmatch(string(msg)); m != nil && bytes.Contains(files[0], []byte("\t"+m[1]+" \"")) {
-							sig = "not-a-fixed-point@own-output-does-not-compile(parameter-shadows-generated-import-alias)"
-						}
 					}
 				}
 				if !seenSig[sig] {
@@ -499,7 +495,7 @@ func fixedPointSweep(s *Scratch, runner *clisim.Runner, seed uint64, npkgs int, 
 					os.WriteFile(dst, data, 0o644)
 					detail := fmt.Sprintf("%s in conflict-heavy package %s: %s differs from the first output (exits %v, %d / %d / %d bytes) %s", cmd, c.Pkg, what, exits, len(files[0]), len(files[1]), len(files[2]), why)
 					if k := IsKnown(known, "C15", sig); k != nil {
-						lines = append(lines, fmt.Sprintf("KNOWN-FINDING: property=C15 %s (%s; e.g. %s; replay %s)", k.Text, sig, cmd+" in "+c.Pkg, dst))
+						lines = append(lines, fmt.Sprintf("KNOWN-FINDING: property=C15 moq's own output left in place does not compile, so the next identical run fails (%s in %s: %s); replay %s", cmd, c.Pkg, strings.ReplaceAll(why, "\n", " "), dst))
 					} else {
 						lines = append(lines, fmt.Sprintf("VIOLATION property=C15 replay=%s class=%s :: %s", dst, sig, detail))
 					}
